@@ -10,7 +10,7 @@ import subprocess
 import time
 
 REPO = '/repo'
-CACHE = '/verif/.cache/mir'
+CACHE = os.environ.get('VERIF_MIR_CACHE', '/verif/.cache/mir')
 
 
 class MirError(Exception):
